@@ -471,6 +471,9 @@ def main():
     base9 = ["G1 X%d ; c%d" % (i, i) for i in range(8)] + ["; only comment", "G1 Y1"]
     scen.append(("corpus-m110", base9, dict(boot=1, corrupt={0}, react=lambda i: 0.002, gap=0.0)))
     scen.append(("corpus-tail", base9, dict(boot=0, corrupt={4}, corrupt_first_of={8}, react=lambda i: 0.002, gap=0.25)))
+    # the last line alone is corrupted (no earlier rejection, so no surplus ok): the request is served and the job completes
+    scen.append(("corpus-last-line", base9, dict(boot=0, corrupt=set(), corrupt_first_of={8}, react=lambda i: 0.002, gap=0.0)))
+    scen.append(("corpus-last-line-slow", base9, dict(boot=1, corrupt=set(), corrupt_first_of={8}, react=lambda i: 0.006, gap=0.02, resend_fmt="rs N%d Expected checksum 67")))
     scen.append(("corpus-clean", base9, dict(boot=1, corrupt=set(), react=lambda i: 0.004, gap=0.0)))
     scen.append(("corpus-repeat", base9 + ["G1 X%d" % i for i in range(20, 28)], dict(boot=0, corrupt={5, 6}, react=lambda i: 0.002, gap=0.0)))
     scen.append(("corpus-marlin-error-line", base9 + ["G1 X%d" % i for i in range(30, 36)], dict(boot=0, corrupt={6}, react=lambda i: 0.002, gap=0.0, error_lines=True)))
